@@ -58,10 +58,10 @@ _c("C16", "model-based testing at real capacity: prefix re-execution + drain for
    "draining a re-executed prefix) and LockingDeque (popleft/len/qsize), bound, placement, displacement of exactly "
    "one old item, token count, clear, would-block detection.",
    "Which old item is displaced is left open. Blocking is detected by substituting the token queue class.")
-_c("C18", "differential testing across 99 configurations of decorator x host x live flags x drive x polling",
+_c("C18", "differential testing across 102 configurations of decorator x host (incl. a started active object) x live flags x drive x polling",
    "Exploration: each generated chart and event list is executed under every configuration and the handler action "
    "logs and resting states must be identical.",
-   "Active-object hosts are not part of this differential (scheduler-based checks cover them).")
+   "The active-object configurations run under the deterministic scheduler with round-robin scheduling.")
 _c("C19", "property-based testing: spy output vs the handlers' own invocation stream",
    "Exploration: spy_rtc() and spy() of generated histories compared line by line with an oracle built from what "
    "the handlers themselves saw (calls, statuses, action positions) and the model's queue counts; ring wrap covered.",
